@@ -262,7 +262,7 @@ static void dg_gen_accept(struct vf_rng *r, const struct dg_cfg *c, const struct
 {
 	static const unsigned cand[] = { 1, 3, 6, 7, 8, 9, 10, 11, 12, 13, 14, 15, 16, 17, 18, 19, 20, 21, 22, 23, 24, 27, 31, 100,
 		314, 319, 320, 321, 322, 323, 324, 325, 326, 327, 328, 329, 330, 331, 332, 333, 334, 335, 336, 337, 344 };
-	int i, want_raw, n_raw = 0, dens, maskkind;
+	int i, want_raw, n_raw = 0, dens, maskkind, n_known = 0;
 	unsigned forced = 0;
 
 	memset(f, 0, offsetof(struct dg_frame, exp));
@@ -295,14 +295,20 @@ static void dg_gen_accept(struct vf_rng *r, const struct dg_cfg *c, const struct
 		int vbi = (fl >= 7 && fl <= 23 && line != 100);
 		unsigned w_ttx = 0, w_vps = 0, w_cc = 0, w_wss = 0, w_raw = 0, tot, pick;
 
-		if (o->line0 && vf_chance(r, 1, 6)) {
+		/* line0 == 1: anywhere (C07 robustness); line0 == 2: only behind a line with a known number that the stream will
+		 * carry, so that the frame still begins with a known line number (C06: frames are recognised by those), and only in
+		 * frames without raw VBI lines: the multiplexer derives the field of an undefined line from the last known line of the
+		 * same run of sliced lines, a run that begins behind a raw line of the second field has none (design-notes/C06.md) */
+		if (o->line0 && vf_chance(r, 1, 6) && (o->line0 == 1 || (n_known > 0 && !want_raw))) {
 			dg_fill_line(r, &f->sl[f->n++], VBI_SLICED_TELETEXT_B_625, 0);
 			f->mask |= VBI_SLICED_TELETEXT_B_625;
+			if (vf_chance(r, 1, 2)) dg_fill_line(r, &f->sl[f->n++], VBI_SLICED_TELETEXT_B_625, 0);     /* two in a row */
 		}
 		if (forced) {
 			if (line < forced) continue;
 			if (line == forced) {
 				dg_fill_line(r, &f->sl[f->n++], VBI_SLICED_TELETEXT_B_625, line);
+				n_known++;
 				continue;
 			}
 		}
@@ -337,6 +343,7 @@ static void dg_gen_accept(struct vf_rng *r, const struct dg_cfg *c, const struct
 			dg_fill_line(r, &f->sl[f->n++], vf_chance(r, 1, 2) ? VBI_SLICED_CAPTION_625 : VBI_SLICED_CAPTION_625_F1, line);
 		else if (pick < w_ttx + w_vps + w_cc + w_wss) dg_fill_line(r, &f->sl[f->n++], VBI_SLICED_WSS_625, line);
 		else { dg_fill_line(r, &f->sl[f->n++], VBI_SLICED_VBI_625, line); n_raw++; }
+		if (pick < w_ttx + w_vps + w_cc + w_wss && (f->sl[f->n - 1].id & f->mask)) n_known++;
 	}
 	dg_build_expect(f, c->di);
 	while (f->need > c->max_sz && f->n > 0) {
@@ -519,6 +526,25 @@ static int dg_gen_reject(struct vf_rng *r, const struct dg_cfg *c, struct dg_fra
 		static const unsigned out[] = { 7, 23, 320, 336 };
 		dg_gen_accept(r, c, &o, f, pts);
 		dg_frame_free(f);
+		if (vf_chance(r, 1, 2)) {
+			/* the raw image covers the line, EN 301 775 cannot carry it (raw VBI lines 7-23 / 320-336 only) */
+			unsigned cand[16], nc = 0, l;
+			int tries;
+			for (tries = 0; tries < 8 && !nc; tries++) {
+				dg_frame_free(f);
+				dg_gen_sp(r, f, 0);
+				for (l = (unsigned)f->sp.start[0]; l < (unsigned)(f->sp.start[0] + f->sp.count[0]) && nc < 16; l++) if (l >= 1 && (l < 7 || l > 23)) cand[nc++] = l;
+				for (l = (unsigned)f->sp.start[1]; l < (unsigned)(f->sp.start[1] + f->sp.count[1]) && nc < 16; l++) if (l < 320 || l > 336) cand[nc++] = l;
+			}
+			if (nc) {
+				dg_fill_line(r, &s, VBI_SLICED_VBI_625, cand[vf_below(r, nc)]);
+				dg_insert_sorted(f, &s);
+				f->mask |= VBI_SLICED_VBI_625;
+				f->reject_note = "VBI_625 line inside the raw image but not a line EN 301 775 can carry";
+				break;
+			}
+			dg_frame_free(f);
+		}
 		dg_gen_sp(r, f, 1);
 		dg_fill_line(r, &s, VBI_SLICED_VBI_625, out[vf_below(r, 4)]);
 		dg_insert_sorted(f, &s);
